@@ -151,7 +151,18 @@ def _catalogue():
         lambda vd, a: vd.BlockMean(spacing=1.0, uncertainty=True).filter((a["e"], a["n"]), (a["d"], a["u"]), (a["w"], a["v"])))
     add("train_test_split", S(e=e, n=n, d=d0, w=w0), lambda vd, a: vd.train_test_split((a["e"], a["n"]), a["d"], a["w"], random_state=1, test_size=0.3))
     add("train_test_split(blocks)", S(e=e, n=n, d=d0), lambda vd, a: vd.train_test_split((a["e"], a["n"]), a["d"], spacing=1.0, random_state=1, test_size=0.3))
-    add("cross_val_score", S(e=e, n=n, d=d0, w=w0), lambda vd, a: vd.cross_val_score(vd.Trend(1), (a["e"], a["n"]), a["d"], weights=a["w"]))
+    def cvs_untouched(vd, a):
+        out = []
+        for est in (vd.Trend(1), vd.VectorSpline2D(mindist=0.5, damping=1e-2), vd.Chain([("t", vd.Trend(1))])):
+            vec = isinstance(est, vd.VectorSpline2D)
+            before = repr(est.get_params())
+            sc = vd.cross_val_score(est, (a["e"], a["n"]), (a["d"], a["d"][::-1].copy()) if vec else a["d"], weights=(a["w"], a["w"]) if vec else a["w"])
+            fitted = sorted(k for k in vars(est) if k.endswith("_"))
+            if fitted or repr(est.get_params()) != before:
+                raise AssertionError("cross_val_score modified the estimator passed in: fitted attributes %s, params %s -> %s" % (fitted, before, repr(est.get_params())))
+            out.append(sc)
+        return out
+    add("cross_val_score", S(e=e, n=n, d=d0, w=w0), cvs_untouched)
     add("BlockKFold.split", S(x=np.column_stack([e, n])), lambda vd, a: [(tr.tolist(), te.tolist()) for tr, te in vd.BlockKFold(spacing=1.0, n_splits=3, shuffle=True, random_state=0).split(a["x"])])
     add("BlockShuffleSplit.split", S(x=np.column_stack([e, n])), lambda vd, a: [(tr.tolist(), te.tolist()) for tr, te in vd.BlockShuffleSplit(spacing=1.0, n_splits=2, random_state=0).split(a["x"])])
     add("CheckerBoard", S(qe=PROBE[0], qn=PROBE[1]), lambda vd, a: (vd.synthetic.CheckerBoard(region=(0, 4, 0, 2)).predict((a["qe"], a["qn"])),
@@ -282,6 +293,8 @@ def _families(vd):
                              [dict(spacing=2.4), dict(spacing=2.4, adjust="region"), dict(spacing=2.4, pixel_register=True), dict(size=5), dict(size=5, pixel_register=True)]]
     F["rolling_window"] = [lambda kw=kw: vd.rolling_window((e, n), size=1.0, **kw) for kw in
                            [dict(spacing=0.7), dict(spacing=0.7, adjust="region"), dict(shape=(2, 3)), dict(spacing=0.7, region=(0.5, 3.5, 0.25, 1.75))]]
+    F["expanding_window"] = [lambda a=a: vd.expanding_window((e, n), a[0], a[1]) for a in
+                             [((2.0, 1.0), [0.5, 2.0]), ((2.0, 1.0), [2.0, 0.5]), ((1.0, 0.5), [0.5, 2.0]), ((2.0, 1.0), [1.0])]]
     F["BlockReduce.filter"] = [lambda kw=kw: vd.BlockReduce(np.median, **kw).filter((e, n), d0) for kw in
                                [dict(spacing=0.9), dict(spacing=0.9, adjust="region"), dict(spacing=0.9, center_coordinates=True), dict(shape=(2, 3)),
                                 dict(spacing=0.9, region=(0, 4, 0, 2))]]
@@ -609,6 +622,21 @@ def run(case, rec):
                     rec.check(False, "%s: %s input %r raised %r although the writable contiguous one works" % (case["name"], variant, k, r))
                 else:
                     rec.check(_canon(r) == cb, "%s: result changes when %r is passed as a %s array" % (case["name"], k, variant))
+        if slots_t:
+            # the caller refills the SAME array objects with other values between two calls: the second call must see the new values
+            # (seed C14-r2_1: a k-d tree cached on the identity of the coordinate arrays)
+            a = fresh()
+            first = call(rec, fn, vd, a)
+            for k in a:
+                a[k][...] = a[k] + 0.125
+            second = call(rec, fn, vd, a)
+            b = {k: np.array(v, copy=True) + 0.125 for k, v in slots_t.items()}
+            third = call(rec, fn, vd, b)
+            if raised(third):
+                rec.check(raised(second), "%s: shifted inputs are refused in fresh arrays (%r) but accepted in re-used ones" % (case["name"], third))
+            else:
+                rec.check(not raised(second) and _canon(second) == _canon(third),
+                          "%s: re-using the argument arrays with new contents gives a result that differs from fresh arrays with those contents" % case["name"])
         if slots_t:
             r = run_variant("all_readonly")
             rec.check(not raised(r) and _canon(r) == cb, "%s: all-read-only inputs behave differently: %r" % (case["name"], r if raised(r) else "result differs"))
